@@ -15,7 +15,7 @@
      (1) verdicts of the exact recognisers: single-peaked (strict sp_decide and the three (R)-models; weak spw_decide),
          the mirrored axis test and 0/1 matrix, single-crossing (sc_decide, sc_conflict_decide, and the MIRROR of
          is_single_crossing sc_algo_verdict), single-peaked on a tree (spt_decide and the MIRROR of Trick's algorithm
-         for every admissible set-iteration choice), the eight approval domains, consecutive ones (rows), 1-Euclidean
+         for every admissible set-iteration choice), the eight approval domains, consecutive ones (rows and columns of the matrix), 1-Euclidean
          (specification, refutation test, checker);
      (2) optima: min_alt_del, min_vot_del, min_partition;
      (3) winner sets of all nine single-winner rules and the three score tables are mapped through f — proved as an
@@ -24,9 +24,6 @@
      (4) witnesses: a witness accepted on the original input is accepted, renamed, on the renamed input.
 
    NOT PROVED (stated nowhere below):
-     - c1p_decide under a permutation of the COLUMNS of an arbitrary matrix (rows: c1p_decide_rows_perm).  The
-       instance-level consequences that matter are covered: ci/cei/de deciders are invariant under reordering of
-       alternatives_name (ci_decide_alts_perm ...), vi/vei/wsc under reordering of the ballots.
      - is_part's OUTPUT under reordering of the ballots (the list of parts is produced in ballot order; its verdict is
        part_decide, which is invariant: part_decide_reorder).
      - eucl_decide (Fourier-Motzkin reference) under relabelling as a boolean identity; the specification-level
@@ -54,6 +51,10 @@ Print Assumptions sp_decide_relabel.
 Theorem sp_decide_reorder : forall alts rs rs', Permutation rs rs' -> SP.sp_decide alts rs = SP.sp_decide alts rs'.
 Proof. exact Proofs.SP.sp_decide_reorder. Qed.
 Print Assumptions sp_decide_reorder.
+
+Theorem sp_decide_alts_perm : forall alts alts' rs, Permutation alts alts' -> SP.sp_decide alts rs = SP.sp_decide alts' rs.
+Proof. exact (fun alts alts' rs H => Proofs.SP.spw_decide_alts_perm alts alts' (map SP.strictify rs) H). Qed.
+Print Assumptions sp_decide_alts_perm.
 
 Theorem spw_decide_relabel : forall f, injective f -> forall alts p,
   SP.spw_decide (map_alts f alts) (map_profile f p) = SP.spw_decide alts p.
@@ -348,6 +349,12 @@ Theorem c1p_decide_rows_perm : forall rows rows' nc, Permutation rows rows' -> c
 Proof. exact Proofs.Relabel.c1p_decide_rows_perm. Qed.
 Print Assumptions c1p_decide_rows_perm.
 
+(* the columns of the matrix in another order: q lists, for each new column, the old column it shows *)
+Theorem c1p_decide_cols_perm : forall rows nc q, Permutation (seq 0 nc) q -> Forall (fun r => length r = nc) rows ->
+  c1p_decide (map (permute_row q) rows) nc = c1p_decide rows nc.
+Proof. exact Proofs.Relabel.c1p_decide_cols_perm. Qed.
+Print Assumptions c1p_decide_cols_perm.
+
 (* the mirrored partition recognisers return the renamed partition *)
 Theorem is_part_relabel : forall f, injective f -> forall ballots,
   is_part (map_rankings f ballots) = option_map (map_rankings f) (is_part ballots).
@@ -482,7 +489,21 @@ Theorem bucklin_regroup : forall i i', Proofs.Scoring.wf_inst i -> Proofs.Scorin
   exists w w', bucklin_winner i = Ok w /\ bucklin_winner i' = Ok w' /\ forall a, In a w <-> In a w'.
 Proof. exact Proofs.Bucklin.bucklin_regroup. Qed.
 Print Assumptions bucklin_regroup.
-(* k-approval and approval: Properties/C06.v k_approval_regroup, approval_regroup (same shape) *)
+Theorem k_approval_regroup : forall i i' k,
+  Proofs.Scoring.wf_inst i -> Proofs.Scoring.wf_inst i' ->
+  Proofs.Scoring.all_orders Proofs.Scoring.strictb i = true -> Proofs.Scoring.all_orders Proofs.Scoring.strictb i' = true -> 1 <= k ->
+  dt_in (dt i) [Soc; Soi] = true -> dt_in (dt i') [Soc; Soi] = true ->
+  (forall x, In x (alts i) <-> In x (alts i')) -> Permutation (expand (prof i)) (expand (prof i')) ->
+  exists w w', k_approval_winner i k = Ok w /\ k_approval_winner i' k = Ok w' /\ forall a, In a w <-> In a w'.
+Proof. exact Proofs.Scoring.k_approval_regroup. Qed.
+Print Assumptions k_approval_regroup.
+Theorem approval_regroup : forall i i',
+  Proofs.Scoring.wf_inst i -> Proofs.Scoring.wf_inst i' -> is_approval i = Ok true -> is_approval i' = Ok true ->
+  dt_in (dt i) [Soc; Toc; Soi; Toi] = true -> dt_in (dt i') [Soc; Toc; Soi; Toi] = true ->
+  (forall x, In x (alts i) <-> In x (alts i')) -> Permutation (expand (prof i)) (expand (prof i')) ->
+  exists w w', approval_winner i = Ok w /\ approval_winner i' = Ok w' /\ forall a, In a w <-> In a w'.
+Proof. exact Proofs.Scoring.approval_regroup. Qed.
+Print Assumptions approval_regroup.
 End RuleStatements.
 
 (* ================================================================================================================ *)
@@ -601,3 +622,16 @@ Example ex_approval :
   Approval.vi_decide [7; 5; 9] [[5; 7]; [9]; [7; 9]] = true /\
   Approval.vi_decide [9; 7; 5] [[9]; [7; 9]; [5; 7]] = true.
 Proof. repeat split; vm_compute; reflexivity. Qed.
+
+(* a matrix without the consecutive-ones property (a 3-cycle) and one with it, columns permuted by q = [2;0;3;1] *)
+Example ex_c1p :
+  Permutation (seq 0 4) [2; 0; 3; 1]%nat /\
+  C1P.c1p_decide [[true; true; false; false]; [false; true; true; false]; [true; false; true; false]] 4 = false /\
+  C1P.c1p_decide (map (C1P.permute_row [2; 0; 3; 1]%nat)
+                      [[true; true; false; false]; [false; true; true; false]; [true; false; true; false]]) 4 = false /\
+  C1P.c1p_decide [[true; false; true; false]; [false; false; true; true]] 4 = true /\
+  C1P.c1p_decide (map (C1P.permute_row [2; 0; 3; 1]%nat) [[true; false; true; false]; [false; false; true; true]]) 4 = true.
+Proof.
+  split; [apply (Proofs.C1P.perm_of_seq_correct 4 [2; 0; 3; 1]%nat); vm_compute; reflexivity|].
+  repeat split; vm_compute; reflexivity.
+Qed.
